@@ -10,4 +10,4 @@ Extraction "attsrvc06.ml" conv_anchor
   AttDbModel.find_notification_data_by_index AttDbModel.find_notification_data AttDbModel.all_chars
   AttDbModel.invalid_index
   AttSrvModel.srv_init AttSrvModel.srv_step AttSrvModel.by_value_available
-  AttSrvSpecC06.minit AttSrvSpecC06.mstep.
+  AttSrvSpecVal.minit AttSrvSpecC06.mstep.
